@@ -191,6 +191,36 @@ theorem adj_denote_gen (hreal : ∀ r, star (ofRat r) = ofRat r) (e : Expr α)
   rw [← adj_eq_gen (oshOf ofRat) e (allLeaves_imp (fun l hl => adjLeaf_eq_gen ofRat l hl.1 hl.2) e he)]
   exact adj_denote_leaves ofRat hreal e (allLeaves_imp (fun l hl => hl.1) e he) s hs
 
+/-! ### `_apply` bodies -/
+
+theorem transposeSem_norm (ish : List Int) (axes : Option (List Int)) :
+    (transposeSem ish (axes.map fun a => normAxes a ish.length) : Option (Sem α)) = transposeSem ish axes := by
+  cases axes with
+  | none => rfl
+  | some a => simp only [Option.map_some, transposeSem, normAxes_idem]
+
+theorem sumSem_norm (ish axes : List Int) : (sumSem ish (normAxes axes ish.length) : Sem α) = sumSem ish axes := by
+  simp only [sumSem, normAxes_idem]
+
+/-- **The entry model of twelve classes is the translation of their `_apply`.**  For Identity, Reshape,
+    Transpose, Resize, Flip, Circshift, Downsample, Upsample, Sum, Slice, ArrayToBlocks, Interpolate: what the
+    leaf denotes in the model (`leafSem0`, the object of every C01 / C02 / C04 theorem) is the primitive the
+    generated table `applyGen` reads off the class's `_apply` body — same numpy / util / block / interp
+    function, same attributes in the same argument positions — applied to an array of shape `self.ishape`.
+    (The semantics of the primitives themselves stay the model's numpy contracts, tied by the correspondence.) -/
+theorem leafSem0_eq_prim (l : Leaf α) (ish : List Int) (p : Prim) (h1 : ishOf l = some ish)
+    (h2 : Gen.LinopAdjoint.applyGen l = some p) : leafSem0 star ofRat l = primSem ofRat ish p := by
+  cases l <;> simp only [ishOf, Gen.LinopAdjoint.applyGen, Option.some.injEq, reduceCtorEq] at h1 h2 <;>
+    subst h1 <;> subst h2 <;>
+    first
+      | rfl
+      | simp only [leafSem0, primSem, transposeSem_norm, sumSem_norm]
+
+/-- the table covers exactly these twelve classes -/
+theorem applyGen_covers (l : Leaf α) :
+    (Gen.LinopAdjoint.applyGen l).isSome = (ishOf l).isSome := by
+  cases l <;> rfl
+
 /-! ### FiniteDifference -/
 
 theorem allLeaves_vstackList (P : Leaf α → Prop) (ax : Option Int) (es : List (Expr α)) (e : Expr α)
